@@ -35,7 +35,7 @@ class C19(Property):
     ]
     assumptions = [
         "theorems are about the Lean model; model = code is checked on the generated inputs of this run (bit-for-bit)",
-        "oracle domain: finite coordinates, finite requested length; position_at(1) and vertex positions compared with float slack 1e-6*scale (p0 + (p1-p0)*1 is not p1 in floats), Lipschitz with slack 4e-6*scale + 1e-5",
+        "oracle domain: finite coordinates, finite requested length; position_at(0), position_at(1) and vertex positions compared with float slack 1e-6*scale (position_at(0) is one ulp off the first point when the Catmull surplus booked into lengths[1] is negative by rounding, e.g. -4.8e-7) (p0 + (p1-p0)*1 is not p1 in floats), Lipschitz with slack 4e-6*scale + 1e-5",
         "F11 (NaN end point) makes position_at non-finite: reported as the known finding",
     ]
     nontrivial_rule = ("curves from the C16 generators (zero-length, duplicate-vertex, length-adjusted) x progress values: 0, 1, negatives, > 1, NaN, +-inf, "
@@ -54,6 +54,7 @@ class C19(Property):
             x, y = g.coord(rng), g.coord(rng)
             d = rng.uniform(5.0, 90.0)
             items.append((0, [(x, y, "C"), (x, y, None), (g.f32(x + d), g.f32(y + 1.0), None)], "catmull-doubled-first"))
+        items.append((1, [(404.0, -3.0, "P"), (279.0, 148.9139862060547, None), (358.74554443359375, 51.998291015625, None)], "witness-F13"))
         nats = g.natural_dists(core.run_impl, [(m, p) for m, p, _ in items])
         pre = []
         for (m, pts, tag), nat in zip(items, nats):
@@ -82,6 +83,10 @@ class C19(Property):
         if ("nonfinite-path-point" in out) and g.nan_cut_predicate(case.line, core.run_impl):
             for f in findings:
                 if f.get("predicate") == "nan_cut":
+                    return f["id"]
+        if "nonfinite-natural-path" in out and g.ill_conditioned_arc_predicate(case.line):
+            for f in findings:
+                if f.get("predicate") == "ill_conditioned_arc":
                     return f["id"]
         return None
 
